@@ -1049,7 +1049,10 @@ class Exec:
             ff = self.resolve(key, args)
             if ff is not None:
                 return self.run_fn(ff, list(args))
-            raise Unmodelled('closure ' + key)
+            parts = strip_generics(key).split('::')
+            if len(parts) >= 2 and parts[-2] in self.prog.enums and parts[-1] in self.prog.enums[parts[-2]]:
+                return Adt(parts[-2], parts[-1], list(args))      # enum variant constructor
+            return self.call(key, list(args))
         p0 = f.params[0][1]
         recv = clo_v
         if p0.startswith('&'):
